@@ -95,7 +95,10 @@ NUM_RE = re.compile(r"^[0-9]+(\.[0-9]+)?$")
 def number_value(text):
     """(mantissa, scale) of a plain decimal literal, or raises LexError / Abstain."""
     if "e" in text or "E" in text or "+" in text or "-" in text:
-        raise Abstain("scientific notation")
+        # a complete exponent form (`1e5`, `2.5E-3`) is left open; a marker without digits behind it (`1e`, `2.5E+`) is malformed
+        if re.match(r"^[0-9]+(\.[0-9]+)?[eE][+-]?[0-9]+$", text):
+            raise Abstain("scientific notation")
+        raise LexError("malformed number " + text)
     if text.endswith(".") and text.count(".") == 1:
         raise Abstain("trailing dot")
     if not NUM_RE.match(text):
